@@ -1,12 +1,100 @@
 /-
 Driver commands of property C13 (core Lean only).  Command names start with "c13.".
+
+  c13.bam <blocks> <hdrReads> <ops>
+     blocks   as in c02.run (`x<hex>:csize` or `len:csize:seed`, joined by ',')
+     hdrReads sizes of the header decoder's reads joined by ',' (or '-')
+     ops      joined by ',':  A (Read until an error) | C<bf>.<bb>-<ef>.<eb> (SetChunk) | N (SetChunk(nil))
+              | I<chunk>+<chunk>… (NewIterator, Next until false, Close; `I-` = no chunks)
+     answer   per op joined by ';':
+              A, I → records `len.hash.bf.bb.ef.eb` (body length, body hash, bam LastChunk) joined by '|', then
+                     '|' and the class of the error that ended the loop (for I: of Error(), `ok` when nil)
+              C, N → ok | eof | err
+  c13.cr <blocks> <chunk>+<chunk>… <sizes>
+     ChunkReader over a fresh reader; per Read `n:class:hash` joined by ';'
 -/
 import Hts.Drv.Util
+import Hts.Drv.C02
+import Hts.Model.ChunkReader
+import Hts.Model.BamChunks
 namespace Hts.Drv.C13
-open Hts.Drv
+open Hts.Drv Hts.Drv.C02 Hts.Model.Bgzf Hts.Spec.Flat
+
+def parseChunk (s : String) : Option Chunk :=
+  match s.splitOn "-" with
+  | [b, e] => do some ⟨← parseOffset b, ← parseOffset e⟩
+  | _ => none
+
+def parseChunks (s : String) : Option (List Chunk) :=
+  if s == "-" then some [] else (s.splitOn "+").mapM parseChunk
+
+def parseNats (s : String) : Option (List Nat) :=
+  if s == "-" then some [] else (s.splitOn ",").mapM parseNat
+
+def showRec (body : List UInt8) (c : Chunk) : String :=
+  s!"{body.length}.{hashBytes body}.{showOff c.bgn}.{showOff c.fin}"
+
+/-- `for { rec, err := br.Read(); if err != nil { break } }` -/
+def readAll : Nat → BamReader → List String → BamReader × List String
+  | 0, br, acc => (br, ("MODEL-FUEL" :: acc).reverse)
+  | fuel + 1, br, acc =>
+    match br.read with
+    | (br', .ok body) => readAll fuel br' (showRec body br'.lastChunk :: acc)
+    | (br', .error e) => (br', (errClass (some e) :: acc).reverse)
+
+def iterAll : Nat → Iterator → List String → Iterator × List String
+  | 0, it, acc => (it, ("MODEL-FUEL" :: acc).reverse)
+  | fuel + 1, it, acc =>
+    match it.next with
+    | (it', some body) => iterAll fuel it' (showRec body it'.br.lastChunk :: acc)
+    | (it', none) => (it', (errClass it'.error :: acc).reverse)
+
+def fuelOf (br : BamReader) : Nat := (br.r.file.foldl (fun n m => n + m.data.length) 0) + 2
+
+def runOps : BamReader → List String → List String → Option (List String)
+  | _, [], acc => some acc.reverse
+  | br, op :: ops, acc =>
+    if op == "A" then
+      let (br', rs) := readAll (fuelOf br) br []
+      runOps br' ops ("|".intercalate rs :: acc)
+    else if op == "N" then
+      let (br', e) := br.setChunk none
+      runOps br' ops (errClass e :: acc)
+    else if op.startsWith "C" then do
+      let c ← parseChunk (op.drop 1).toString
+      let (br', e) := br.setChunk (some c)
+      runOps br' ops (errClass e :: acc)
+    else if op.startsWith "I" then do
+      let cs ← parseChunks (op.drop 1).toString
+      match Iterator.new br cs with
+      | .error e => some (("new:" ++ errClass (some e)) :: acc).reverse
+      | .ok it =>
+        let (it', rs) := iterAll (fuelOf br * (cs.length + 1) + cs.length + 2) it []
+        let (br', _) := it'.close
+        runOps br' ops ("|".intercalate rs :: acc)
+    else none
 
 def handle (cmd : String) (args : List String) : Option String :=
   match cmd, args with
+  | "c13.bam", [blocks, hdr, ops] => do
+    let f ← parseFile blocks
+    let hs ← parseNats hdr
+    match BamReader.new f hs with
+    | .error e => some ("new:" ++ errClass (some e))
+    | .ok br =>
+      let rs ← runOps br (if ops == "-" then [] else ops.splitOn ",") []
+      some (";".intercalate rs)
+  | "c13.cr", [blocks, chunks, sizes] => do
+    let f ← parseFile blocks
+    let cs ← parseChunks chunks
+    let ns ← parseNats sizes
+    match Reader.new f with
+    | .error e => some ("new:" ++ errClass (some e))
+    | .ok r =>
+      match ChunkReader.new r cs with
+      | .error e => some ("newcr:" ++ errClass (some e))
+      | .ok cr =>
+        some (";".intercalate ((cr.run ns).map fun (out, e) => s!"{out.length}:{errClass e}:{hashBytes out}"))
   | _, _ => none
 
 end Hts.Drv.C13
